@@ -291,6 +291,17 @@ def staleIter (s : State) : R :=
       | some code => if s.cfg.graceful then onOther s else onNotify 6 code s
   else w.1 ⊳ onNetErr
 
+/-- the main loop runs (up to) `n` iterations in which no message arrives. -/
+def drainMain : Nat → State → R
+  | 0, s => (s, [])
+  | n + 1, s =>
+    match s.pc with
+    | .mainLoop c =>
+      (match s.conn with
+       | some k => (if k.id = c then mainIter none s else staleIter s) ⊳ drainMain n
+       | none => (s, []))
+    | _ => (s, [])
+
 def sendKa (c : Nat) (s : State) : R :=
   let w := sendOn .keepalive s
   if w.2 then w.1 ⊳ setPc (.awaitKa c) else w.1 ⊳ onNetErr
@@ -396,15 +407,13 @@ def react (s : State) : Event → R
     | _ => (s, [])
   | .holdExpired =>
     -- the remote stays silent for more than the hold time: the iterations which run meanwhile
-    -- send what is pending (and notice a teardown request) before `check_ka` raises
+    -- send what is pending, one queued ROUTE-REFRESH each (and notice a teardown request),
+    -- before `check_ka` raises
     match s.pc with
-    | .mainLoop c =>
+    | .mainLoop _ =>
       if s.cfg.hold0 then (s, [])
       else
-        (match s.conn with
-         | some k => if k.id = c then mainIter none s else staleIter s
-         | none => (s, []))
-        ⊳ fun (s : State) => match s.pc with
+        drainMain (s.refreshQ + 1) s ⊳ fun (s : State) => match s.pc with
           | .mainLoop _ => onNotify 4 0 s
           | _ => (s, [])
     | _ => (s, [])
